@@ -542,6 +542,34 @@ def derived_case(name, vlevel, op):
       l.delete("xz")
     except gfapy.Error:
       pass
+  # a copy and the line it was copied from are two lines: a new tag on the
+  # copy says nothing about a tag of that name on the original (valid
+  # assignments are never rejected, at any level)
+  if op in ("multiply", "clone-add") and g is not None:
+    for c in ls:
+      if c.record_type != "S":
+        continue
+      others = [s for s in g.segments if s is not c and not s.virtual]
+      if not others:
+        continue
+      o = others[0]
+      try:
+        c.set("xq", 12)
+        o.set("xq", "hello")
+        wo, wc = o.field_to_s("xq", tag=True), c.field_to_s("xq", tag=True)
+        o.validate()
+        c.validate()
+      except gfapy.Error as e:
+        probs.append(("valid-value-reported", "{}: xq = 12 on the copy, then "
+                      "xq = 'hello' on another segment: {}".format(
+                          op, type(e).__name__)))
+        break
+      if (wo, wc) != ("xq:Z:hello", "xq:i:12"):
+        probs.append(("level-dependent-result", "{}: tags written {} / {}"
+                      .format(op, wo, wc)))
+        break
+      for x in (o, c):
+        x.delete("xq")
   return probs
 
 
